@@ -133,7 +133,7 @@ theorem passNode_symCtx (st : Static) (first last : Bool) (ps ps' : PassSt) (n :
 theorem go_uf (st : Static) (last : Bool) (n : AstNode) :
     ∀ (fuel k : Nat) (ps ps' : PassSt), passNodes.go st false last n k fuel ps = .ok ps' → ps'.stable = true →
       NodeOK ps.defs n →
-      (∀ k', marked ps.defs n k' = true → ∀ ctx : RCtx, ctx.first = false → ctx.symCtx = stepCtx st ps.symCtx n →
+      (∀ k', k' < k + fuel → marked ps.defs n k' = true → ∀ ctx : RCtx, ctx.first = false → ctx.symCtx = stepCtx st ps.symCtx n →
         dispatch st ps.defs.unfreeze ctx n k' = .ok (ps.defs.unfreeze, true, [])) →
       passNodes.go st false last n k fuel (ufPs ps) = .ok (ufPs ps') ∧ ps'.defs = ps.defs ∧
         (0 < fuel → ps'.symCtx = stepCtx st ps.symCtx n) ∧ (fuel = 0 → ps'.symCtx = ps.symCtx) := by
@@ -168,15 +168,15 @@ theorem go_uf (st : Static) (last : Bool) (n : AstNode) :
         exact hmono f (k + 1) ps1 ps' h hs
       obtain ⟨hd1, _⟩ := passNode_id st last ps ps1 n k hp hs1 hok
       have hsc1 := passNode_symCtx st false last ps ps1 n k hp
-      rw [passNode_uf st last ps ps1 n k hp hs1 hok (hrec k)]
+      rw [passNode_uf st last ps ps1 n k hp hs1 hok (hrec k (by omega))]
       simp only
       have hok1 : NodeOK ps1.defs n := by rw [hd1]; exact hok
-      have hrec1 : ∀ k', marked ps1.defs n k' = true → ∀ ctx : RCtx, ctx.first = false → ctx.symCtx = stepCtx st ps1.symCtx n →
+      have hrec1 : ∀ k', k' < (k + 1) + f → marked ps1.defs n k' = true → ∀ ctx : RCtx, ctx.first = false → ctx.symCtx = stepCtx st ps1.symCtx n →
           dispatch st ps1.defs.unfreeze ctx n k' = .ok (ps1.defs.unfreeze, true, []) := by
-        intro k' hm ctx hf hc
+        intro k' hk' hm ctx hf hc
         rw [hd1] at hm ⊢
         rw [hsc1, stepCtx_idem] at hc
-        exact hrec k' hm ctx hf hc
+        exact hrec k' (by omega) hm ctx hf hc
       obtain ⟨e2, d2, c2, c3⟩ := ih (k + 1) ps1 ps' h hs hok1 hrec1
       refine ⟨e2, d2.trans hd1, fun _ => ?_, fun h0 => by cases h0⟩
       cases f with
@@ -188,7 +188,7 @@ def ctxAfter (st : Static) (sc : List String) (pre : List AstNode) : List String
 /-- every marked item recomputes to its stored value, in any non-first context with the symbol
     context of its node -/
 def RecomputesAll (st : Static) (d : Defs) (sc : List String) (nodes : List AstNode) : Prop :=
-  ∀ pre n post k, nodes = pre ++ n :: post → marked d n k = true →
+  ∀ pre n post k, nodes = pre ++ n :: post → k < nodeElems n → marked d n k = true →
     ∀ ctx : RCtx, ctx.first = false → ctx.symCtx = ctxAfter st sc (pre ++ [n]) →
       dispatch st d.unfreeze ctx n k = .ok (d.unfreeze, true, [])
 
@@ -221,10 +221,10 @@ theorem passNodes_uf (st : Static) (last : Bool) :
           have hst := passNodes_stable_mono st false last rest ps1 ps' h hs
           exact (go_id st last n _ 0 ps ps1 hg hst (hok n List.mem_cons_self)).1
         rw [this]; exact hok m (List.mem_cons_of_mem _ hm))).2
-      have hrecn : ∀ k', marked ps.defs n k' = true → ∀ ctx : RCtx, ctx.first = false → ctx.symCtx = stepCtx st ps.symCtx n →
+      have hrecn : ∀ k', k' < 0 + nodeElems n → marked ps.defs n k' = true → ∀ ctx : RCtx, ctx.first = false → ctx.symCtx = stepCtx st ps.symCtx n →
           dispatch st ps.defs.unfreeze ctx n k' = .ok (ps.defs.unfreeze, true, []) := by
-        intro k' hm ctx hf hc
-        exact hrec [] n rest k' rfl hm ctx hf (by simpa [ctxAfter] using hc)
+        intro k' hk' hm ctx hf hc
+        exact hrec [] n rest k' rfl (by omega) hm ctx hf (by simpa [ctxAfter] using hc)
       obtain ⟨e1, d1, c1, c0⟩ := go_uf st last n _ 0 ps ps1 hg hs1 (hok n List.mem_cons_self) hrecn
       rw [e1]
       simp only
@@ -235,9 +235,9 @@ theorem passNodes_uf (st : Static) (last : Bool) :
       have hok1 : NodesOK ps1.defs rest := by
         rw [d1]; exact fun m hm => hok m (List.mem_cons_of_mem _ hm)
       have hrec1 : RecomputesAll st ps1.defs ps1.symCtx rest := by
-        intro pre m post k' hsplit hm ctx hf hc
+        intro pre m post k' hsplit hk' hm ctx hf hc
         rw [d1] at hm ⊢
-        refine hrec (n :: pre) m post k' (by rw [hsplit]; rfl) hm ctx hf ?_
+        refine hrec (n :: pre) m post k' (by rw [hsplit]; rfl) hk' hm ctx hf ?_
         rw [hc, hsc1]
         simp [ctxAfter]
       obtain ⟨e2, d2⟩ := ih ps1 ps' h hs hok1 hrec1
